@@ -25,7 +25,11 @@ def _smooth(job):
     import emg3d
     from emg3d import core, solver
     from . import fit
-    shape, lr, nu, seed, cplx = job
+    shape, lr, nu, seed, cplx = job[:5]
+    # weakly damped class (air-like cells: omega mu sigma h^2 ~ 1e-9): the
+    # node / line blocks are close to singular, tolerances are wider
+    weak = len(job) > 5 and job[5]
+    tol_fix, tol_zero = (1e-5, 1e-6) if weak else (1e-11, 1e-10)
     rng = np.random.default_rng(seed)
     h = [rng.uniform(1, 3, n) for n in shape]
     grid = emg3d.TensorMesh(h, (0, 0, 0))
@@ -38,6 +42,8 @@ def _smooth(job):
     # diffusive-like coefficients: eta = -s mu0 V sigma (negative real part
     # for Laplace, imaginary for frequency); random but well-conditioned
     s = (2j*np.pi*rng.uniform(0.5, 2)) if cplx else rng.uniform(0.5, 2)
+    if weak:
+        s = s*1e-9
     sig = [rng.uniform(0.5, 2, shape) for _ in range(3)]
     eta = [-s*vol*sg for sg in sig]
     zeta = vol/rng.uniform(1, 2, shape)
@@ -89,7 +95,7 @@ def _smooth(job):
         r = (s0 - A @ e1)
         scale = np.linalg.norm(s0) + np.linalg.norm(A @ e1)
         zerores = [list(edges[n]) for n in np.flatnonzero(
-            m & (np.abs(r) <= 1e-10*scale))]
+            m & (np.abs(r) <= tol_zero*scale))]
         # boundary values (arbitrary, non-zero) must never be written; the
         # kernels assume they are zero, so results with them are not compared
         eb = e0.copy()
@@ -102,7 +108,7 @@ def _smooth(job):
         bs = np.zeros(L.ne, dtype=dt)
         bs[m] = (A @ xs)[m]
         xo = run(xs, bs)
-        fixed = bool(np.linalg.norm(xo - xs) <= 1e-11*np.linalg.norm(xs))
+        fixed = bool(np.linalg.norm(xo - xs) <= tol_fix*np.linalg.norm(xs))
         # affine in (field, source)
         e2 = np.zeros(L.ne, dtype=dt)
         e2[m] = rnd(int(m.sum()), -1, 1)
@@ -111,7 +117,7 @@ def _smooth(job):
         al = 0.3
         lhs = run(al*e0 + (1-al)*e2, al*s0 + (1-al)*s2)
         rhs = al*e1 + (1-al)*run(e2, s2)
-        affine = bool(np.linalg.norm(lhs - rhs) <= 1e-11*(
+        affine = bool(np.linalg.norm(lhs - rhs) <= tol_fix*(
             np.linalg.norm(lhs) + 1e-300))
         # ... also for sparse perturbations: a field (or source) supported on
         # one interior edge, where whole blocks see an exactly zero
@@ -125,7 +131,7 @@ def _smooth(job):
             for a, b, c, d in ((e0 + u, s0, u, zero), (e0, s0 + u, zero, u)):
                 lhs = run(a, b)
                 rhs = e1 + run(c, d)
-                if np.linalg.norm(lhs - rhs) > 1e-11*(
+                if np.linalg.norm(lhs - rhs) > tol_fix*(
                         np.linalg.norm(lhs) + 1e-300):
                     affine = False
         # compiled = python source (one kernel call)
@@ -135,7 +141,8 @@ def _smooth(job):
                          "gauss_seidel_z"):
                 setattr(core, name, saved[name].py_func)
             ep = run(e0, s0)
-            samejit = bool(np.linalg.norm(ep - e1) <= 1e-12*np.linalg.norm(e1))
+            samejit = bool(np.linalg.norm(ep - e1) <= (
+                1e-7 if weak else 1e-12)*np.linalg.norm(e1))
     finally:
         for name, orig in saved.items():
             setattr(core, name, orig)
@@ -143,7 +150,7 @@ def _smooth(job):
             "kernels": kernels[:len(kernels)] if kernels else [],
             "zerores": zerores, "boundarywritten": bw, "fixedpoint": fixed,
             "affine": affine, "samejit": samejit, "seed": seed,
-            "cplx": cplx}
+            "cplx": cplx, "weak": bool(weak)}
 
 
 def _band(job):
@@ -228,7 +235,8 @@ def run(tier, replay=None):
     if replay:
         with open(replay) as f:
             j = json.load(f)["case"]
-        jobs = [(tuple(j["shape"]), j["lr"], j["nu"], j["seed"], j["cplx"])]
+        jobs = [(tuple(j["shape"]), j["lr"], j["nu"], j["seed"], j["cplx"],
+                 j.get("weak", False))]
         bjobs = []
     else:
         jobs = []
@@ -244,6 +252,11 @@ def run(tier, replay=None):
                 for nu in nus:
                     jobs.append((shape, lr, nu, rng.randrange(10**6),
                                  rng.random() < 0.5))
+        # weakly damped systems: a few per line-relaxation code
+        for lr in range(8):
+            for shape in rng.sample(shapes[:8], 2):
+                jobs.append((shape, lr, rng.choice([1, 2, 3]),
+                             rng.randrange(10**6), rng.random() < 0.5, True))
         bjobs = [(nc, rng.randrange(10**6), rng.random() < 0.5)
                  for nc in (2, 3, 4, 5, 6) for _ in range(3)]
     with mp.get_context("fork").Pool(C.NCPU) as pool:
@@ -257,12 +270,12 @@ def run(tier, replay=None):
         x = insts[i]
         if x["kind"] == "smooth":
             key = (f"shape={x['shape']};lr={x['lr']};nu={x['nu']};"
-                   f"cplx={x['cplx']};seed={x['seed']}")
+                   f"cplx={x['cplx']};weak={x['weak']};seed={x['seed']}")
             txt = (f"kernels {x['kernels']}, boundary writes "
                    f"{x['boundarywritten']}, fixed point {x['fixedpoint']}, "
                    f"affine {x['affine']}, jit=py {x['samejit']}, "
                    f"{len(x['zerores'])} zero-residual edges")
-            case = {k: x[k] for k in ("shape", "lr", "nu", "seed", "cplx")}
+            case = {k: x[k] for k in ("shape", "lr", "nu", "seed", "cplx", "weak")}
         else:
             key = f"band;nc={x['nc']};seed={x['seed']}"
             txt = f"solve exact {x['solveexact']}"
